@@ -11,7 +11,7 @@
 //   Z <id> <hex sheet> <hex source> <setIndent:-|n> <setOutputEncoding:-|name> <setOmitMETATag:-|0|1> <setEscapeURLs:-|0|1> [<name>=<hex file>]*
 //        whole transformation through XalanTransformer with the API overrides; extra files are served as
 //        file:///vmem/<name> (stylesheet = file:///vmem/main.xsl)   Output: "<id> ok:<hex bytes>" | "<id> err:<status>:<hex message>"
-//   R <id> <hex bytes>      re-parse only (Xerces SAX2)                    Output: "<id> <re-parse>"
+//   R <id> <hex bytes> [<encoding>]   re-parse only (Xerces SAX2)                    Output: "<id> <re-parse>"
 //   event ::= S <u:name> <n> (<u:attrname> <u:attrvalue>){n} | E <u:name> | T <u:text> | C <u:text> | R <u:text> (charactersRaw)
 //           | M <u:text> | P <u:target> <u:data>
 //   re-parse = the bytes parsed by Xerces SAX2, printed as an event script with adjacent text coalesced, or PARSEERR:<msg>
@@ -203,7 +203,7 @@ public:
     }
 };
 
-static std::string reparse(const std::string& bytes)
+static std::string reparse(const std::string& bytes, const std::string& forcedEncoding = std::string())
 {
     using namespace xercesc;
     Collector c;
@@ -218,6 +218,8 @@ static std::string reparse(const std::string& bytes)
         r->setLexicalHandler(&c);
         r->setErrorHandler(&c);
         MemBufInputSource src((const XMLByte*) bytes.data(), bytes.size(), "outopt-output");
+        // no XML declaration was requested: the encoding is external information (as an HTTP header would give it)
+        if (!forcedEncoding.empty()) src.setEncoding(XalanDOMString(forcedEncoding.c_str()).c_str());
         r->parse(src);
         c.flushText();
         res = c.m_error.empty() ? (c.m_out.empty() ? " " : c.m_out) : "PARSEERR:" + c.m_error;
@@ -304,7 +306,7 @@ int main(int argc, char** argv)
             MakeXml m; m.enc = t[2]; m.ver = t[3]; m.indent = std::atoi(t[4].c_str()); m.omit = t[5] == "1";
             m.standalone = t[6]; m.dtsys = t[7]; m.dtpub = t[8];
             std::string s = run_listener(m, evs, bytes);
-            std::cout << id << ' ' << s << '|' << (s.compare(0, 3, "ok:") == 0 ? reparse(bytes) : std::string("-")) << std::endl;
+            std::cout << id << ' ' << s << '|' << (s.compare(0, 3, "ok:") == 0 ? reparse(bytes, (m.omit && m.standalone == "-") ? m.enc : std::string()) : std::string("-")) << std::endl;
         } else if (t[0] == "T") {
             if (!parse_events(t, 3, evs)) { std::cout << id << " badscript" << std::endl; continue; }
             MakeText m; m.enc = t[2];
@@ -317,7 +319,7 @@ int main(int argc, char** argv)
         } else if (t[0] == "Z") {
             transform_case(t);
         } else if (t[0] == "R") {
-            std::cout << id << ' ' << reparse(unhex(t[2])) << std::endl;
+            std::cout << id << ' ' << reparse(unhex(t[2]), t.size() > 3 ? t[3] : std::string()) << std::endl;
         } else {
             std::cout << id << " badscript" << std::endl;
         }
